@@ -101,7 +101,7 @@ func (f LeveldbDiskStorage) SetTableMeta(tbl *btapb.Table) {
 	}
 
 	outPath := filepath.Join(path + ".table.proto")
-	tmpPath := filepath.Join(path + ".table.proto.tmp")
+	tmpPath := filepath.Join(path + ".table.proto~tmp") // "~" cannot occur in a table id: never the directory of another table
 	if err := os.WriteFile(tmpPath, buf, 0666); err != nil {
 		f.errLog(err, "ioutil.WriteFile %q", tmpPath)
 		return
@@ -140,7 +140,7 @@ func newDiskDb(path string, nuke bool) *leveldb.DB {
 	// A database that is being created is not openable until leveldb has written its CURRENT file (a process
 	// that dies in between leaves a directory leveldb refuses to open), so a fresh database is built under
 	// another name and moved into place in one step once it is complete.
-	fresh := path + ".new"
+	fresh := path + "~new" // "~" cannot occur in a table id, so this is never the directory of another table
 	if nuke {
 		_ = os.RemoveAll(fresh)
 		db, err := leveldb.OpenFile(fresh, opts)
@@ -153,7 +153,7 @@ func newDiskDb(path string, nuke bool) *leveldb.DB {
 		// Move the old directory out of the way in one step before deleting it: if the process dies while the
 		// files are being removed, a half-deleted database (which leveldb refuses to open) is not found
 		// under the table's name at the next start.
-		trash := path + ".deleted"
+		trash := path + "~deleted"
 		_ = os.RemoveAll(trash)
 		if err := os.Rename(path, trash); err != nil {
 			_ = os.RemoveAll(path)
